@@ -114,7 +114,7 @@ AddV(old, names) == old \cup {<<nm, l>> : nm \in {x \in names : ~\E u \in old : 
 
 F(name, ok) == IF ok THEN {} ELSE {name}
 
-NoInst == [up |-> FALSE, gen |-> 0, loser |-> FALSE, stopped |-> FALSE, creatingOver |-> FALSE,
+NoInst == [up |-> FALSE, gen |-> 0, cas |-> FALSE, loser |-> FALSE, stopped |-> FALSE, creatingOver |-> FALSE,
            key |-> "W", name |-> "W", load |-> [faultFree |-> FALSE], lastLock |-> NoCp,
            lastPub |-> NoCp, round |-> [mustSucceed |-> FALSE], stopPending |-> {}, stopLine |-> 0]
 I(i) == Get(ist, i, NoInst)
@@ -177,6 +177,13 @@ Upload ==
                          \cup F("C17.AfterStop", ~I(e.inst).stopped)
                        ELSE {})
                  \cup F("C06.CreateWritesNothing", ~(I(e.inst).creatingOver /\ e.applied))
+                 \* a tile the log itself writes in a round, after its compare-and-swap, renders a
+                 \* tree that was committed to the lock store -- whatever was done to storage before
+                 \* (under tampering this is C08's "continues from exactly the committed tree")
+                 \cup (IF e.applied /\ o.k \in {"hash", "data", "names"} /\ I(e.inst).cas
+                       THEN F(IF tampered THEN "C08.ContinuesFromCommittedTree" ELSE "C04.UploadsRenderCommittedTree",
+                              \E h \in SeqRange(lockHist) : h.tree \in SeqRange(e.good))
+                       ELSE {})
        IN /\ pubVal' = newPub
           /\ pubHist' = IF isCp /\ e.applied /\ e.cp.id # pubVal.id THEN Append(pubHist, e.cp) ELSE pubHist
           /\ pubBy' = IF isCp /\ e.applied THEN [inst |-> e.inst, gen |-> I(e.inst).gen, stale |-> stale] ELSE pubBy
@@ -274,7 +281,8 @@ LockReplace ==
        IN /\ lockVal' = newLock
           /\ lockHist' = IF e.applied THEN Append(lockHist, e.new) ELSE lockHist
           /\ replaced' = IF e.applied THEN replaced \cup {e.old.id} ELSE replaced
-          /\ ist' = IF ~e.ok THEN SetI(i, [I(i) EXCEPT !.loser = TRUE]) ELSE ist
+          /\ ist' = IF ~e.ok THEN SetI(i, [I(i) EXCEPT !.loser = TRUE])
+                    ELSE SetI(i, [I(i) EXCEPT !.cas = e.applied])
           /\ viol' = AddV(viol, av \cup StateViol(newLock, pubVal, objs, acks, tampered, pubBy.stale))
     /\ Unch(<<tab, pubVal, pubHist, pubBy, objs, subs, acks, pool, inRound, firstAck, firstSct, q, tampered>>)
     /\ Step
@@ -369,12 +377,13 @@ RoundEnd ==
     /\ viol' = AddV(viol,
           F("C06.LoserStops", I(e.inst).loser => e.class = "fatal")
           \cup F("C03.RoundAfterRecovery", I(e.inst).round.mustSucceed => e.class = "none"))
-    /\ Unch(<<tab, lockVal, lockHist, replaced, pubVal, pubHist, pubBy, objs, subs, acks, pool, inRound, ist, firstAck, firstSct, q, tampered>>)
+    /\ ist' = SetI(e.inst, [I(e.inst) EXCEPT !.cas = FALSE])
+    /\ Unch(<<tab, lockVal, lockHist, replaced, pubVal, pubHist, pubBy, objs, subs, acks, pool, inRound, firstAck, firstSct, q, tampered>>)
     /\ Step
 
 Crash ==
     /\ e.ev = "Crash"
-    /\ ist' = SetI(e.inst, [I(e.inst) EXCEPT !.up = FALSE, !.loser = FALSE, !.stopped = FALSE,
+    /\ ist' = SetI(e.inst, [I(e.inst) EXCEPT !.up = FALSE, !.cas = FALSE, !.loser = FALSE, !.stopped = FALSE,
                                              !.creatingOver = FALSE, !.gen = @ + 1, !.stopPending = {}])
     /\ pool' = Put(pool, e.inst, {}) /\ inRound' = Put(inRound, e.inst, {})
     /\ Unch(<<tab, lockVal, lockHist, replaced, pubVal, pubHist, pubBy, objs, subs, acks, firstAck, firstSct, q, tampered, viol>>)
@@ -384,7 +393,7 @@ Verifies(cp, i) == cp.signer = I(i).key /\ cp.origin = I(i).name /\ cp.ext = 0
 
 LoadStart ==
     /\ e.ev = "LoadStart"
-    /\ ist' = SetI(e.inst, [I(e.inst) EXCEPT !.load = e.flags, !.key = e.flags.key, !.name = e.flags.name,
+    /\ ist' = SetI(e.inst, [I(e.inst) EXCEPT !.load = e.flags, !.cas = FALSE, !.key = e.flags.key, !.name = e.flags.name,
                                              !.lastLock = NoCp, !.lastPub = NoCp, !.loser = FALSE,
                                              !.stopped = FALSE, !.stopPending = {}])
     /\ pool' = Put(pool, e.inst, {}) /\ inRound' = Put(inRound, e.inst, {})
